@@ -283,7 +283,7 @@ def run_check(chk, tier, seed, replay, t0):
         features=dict(sorted(feats.items())),
         exhaustive=bool(getattr(chk, "EXHAUSTIVE", {}).get(tier, False)),
     )
-    if not replay:
+    if not replay and fw.REPO == "/repo":   # runs against a scratch repository (mutation testing) leave the evidence alone
         fw.write_evidence(pid, tier, seed, chk.LEVEL, cov, list(chk.ASSUMPTIONS), wall, violations)
     for l in out_lines:
         print(l)
